@@ -392,3 +392,32 @@ def block_chi_is_normalised_and_scale_free(nn: int, n1: float, n2: float, x1: fl
     assume(k != 0)
     c2 = xsc.computeBlockAverageChi(new(Block, dens={NAMES[i]: k * dens[i] for i in range(inBlock)}), lib)
     assert eq(c2[0], c[0]) and eq(c2[1], c[1]), "independent of a common scaling of the densities"
+
+
+@lemma(gen={"ng": (1, 2), "n1": (1e-4, 0.1), "s": (0.1, 5.0), "tr1": (0.1, 20.0), "tr2": (0.1, 20.0)},
+       overrides={"armi.nuclearDataIO.xsCollections:sparse": "DenseSparse"})
+def library_nuclide_absent_from_the_block_contributes_nothing(
+        ng: int, n1: float, s: float, g1: float, g2: float, f1: float, f2: float, nu1: float, nu2: float, tr1: float, tr2: float,
+        e11: float, e12: float, e21: float, e22: float):
+    """createMacrosFromMicros on a library that also holds nuclide B (same suffix, data = A's scaled by s) which the block
+    does not contain: every macroscopic vector, scatter matrix, derived quantity and chi equals N_A x (A's data) -
+    additivity over nuclides with a zero term.  1..2 groups."""
+    ng = choose(ng, 1, 2)
+    assume(n1 > 0 and tr1 > 0 and tr2 > 0 and s > 0)
+    base = {"nGamma": [g1, g2], "nalph": [0.0, 0.0], "np": [0.0, 0.0], "nd": [0.0, 0.0], "nt": [0.0, 0.0], "fission": [f1, f2],
+            "n2n": [0.0, 0.0], "neutronsPerFission": [nu1, nu2], "chi": [1.0, 0.0], "total": [tr1, tr2], "transport": [tr1, tr2]}
+    sc = {"elasticScatter": [[e11, e12], [e21, e22]], "inelasticScatter": [[0.0, 0.0], [0.0, 0.0]], "n2nScatter": [[0.0, 0.0], [0.0, 0.0]]}
+    lib = full_library(2, ng, base, [1.0, s], sc)
+    m = Creator().createMacrosFromMicros(lib, new(Block, dens={"A": n1}))
+    for g in range(ng):
+        assert eq(m.nGamma[g], n1 * base["nGamma"][g]) and eq(m.fission[g], n1 * base["fission"][g])
+        assert eq(m.nuSigF[g], n1 * base["fission"][g] * base["neutronsPerFission"][g])
+        assert eq(m.absorption[g], n1 * (base["nGamma"][g] + base["fission"][g]))
+        for h in range(ng):
+            assert eq(m.elasticScatter.a[g][h], n1 * sc["elasticScatter"][g][h])
+            assert eq(m.totalScatter.a[g][h], n1 * sc["elasticScatter"][g][h])
+    nuF = sum([base["neutronsPerFission"][g] * base["fission"][g] for g in range(ng)])
+    if nuF != 0:
+        assert eq(m.chi[0], 1.0), "chi is that of the only fissioning nuclide present"
+    else:
+        assert eq(m.chi[0], 0.0)
